@@ -9,6 +9,7 @@ repository.  Written as a declarative statement over plain data:
 id, key length) in both the local policy and the chosen peer proposal, taken from the FIRST acceptable
 peer proposal, in LOCAL preference order; none => refusal."
 """
+from functools import lru_cache
 from itertools import product
 
 ENCR, PRF, INTEG, DH, ESN = 1, 2, 3, 4, 5
@@ -74,43 +75,54 @@ def group_of(suite):
 # ---- deliberately wrong selectors, used only to MEASURE how many enumerated cases can tell a correct
 # ---- implementation from a plausible wrong one (evidence: distinct_nontrivial)
 
-def _first_by(policy, proposals, key, pick):
-    for index, proposal in enumerate(proposals):
-        if proposal[1] != policy[0]:
-            continue
-        suite = {}
-        for ty in required_types(policy):
-            mine = [t for t in policy[1] if t[0] == ty]
-            theirs = [t for t in proposal[3] if t[0] == ty]
-            common = pick(mine, theirs, key)
-            if common is not None:
-                suite[ty] = common
-        if len(suite) == len(required_types(policy)):
-            return (index, frozenset(suite.values()))
-    return None
+@lru_cache(maxsize=None)
+def _mine(policy):
+    return tuple(tuple(t for t in policy[1] if t[0] == ty) for ty in required_types(policy))
 
 
-def _local_first(mine, theirs, key):
-    ks = {key(t) for t in theirs}
-    return next((t for t in mine if key(t) in ks), None)
-
-
-def _peer_first(mine, theirs, key):
-    ks = {key(t): t for t in mine}
-    return next((ks[key(t)] for t in theirs if key(t) in ks), None)
+def _pick(policy, proposal, mode):
+    if proposal[1] != policy[0]:
+        return None
+    theirs = proposal[3]
+    if mode == 'type':       # a peer transform matches when (id, key length) match, whatever its type
+        have = {t[1:] for t in theirs}
+    elif mode == 'len':      # key length ignored
+        have = {t[:2] for t in theirs}
+    else:
+        have = set(theirs)
+    suite = []
+    for mine in _mine(policy):
+        if mode == 'type':
+            hit = next((t for t in mine if t[1:] in have), None)
+        elif mode == 'len':
+            hit = next((t for t in mine if t[:2] in have), None)
+        elif mode == 'peer':     # the peer's order decides
+            hit = next((t for t in theirs if t in mine), None)
+        else:
+            hit = next((t for t in mine if t in have), None)
+        if hit is None:
+            return None
+        suite.append(hit)
+    return frozenset(suite)
 
 
 def wrong_answers(policy, proposals):
-    """the answers of four plausible wrong selectors (peer preference, key length ignored, type ignored,
-    last acceptable proposal)"""
-    ident = lambda t: t
-    no_len = lambda t: t[:2]
-    out = [_first_by(policy, proposals, ident, _peer_first),
-           _first_by(policy, proposals, no_len, _local_first)]
-    # type-blind: a transform matches when (id, key length) match
-    flat = lambda t: t[1:]
-    out.append(_first_by(policy, [(p[0], p[1], p[2], tuple((ty,) + t[1:] for t in p[3] for ty in (1, 2, 3, 4, 5)))
-                                  for p in proposals], ident, _local_first) if flat else None)
-    last = _first_by(policy, list(reversed(proposals)), ident, _local_first)
-    out.append(None if last is None else (len(proposals) - 1 - last[0], last[1]))
+    """the answers (index, suite) | None of four plausible wrong selectors: peer preference, key length
+    ignored, type ignored, last acceptable proposal"""
+    out = []
+    for mode in ('peer', 'len', 'type'):
+        for index, proposal in enumerate(proposals):
+            suite = _pick(policy, proposal, mode)
+            if suite is not None:
+                out.append((index, suite))
+                break
+        else:
+            out.append(None)
+    for index in range(len(proposals) - 1, -1, -1):
+        suite = _pick(policy, proposals[index], 'exact')
+        if suite is not None:
+            out.append((index, suite))
+            break
+    else:
+        out.append(None)
     return out
